@@ -100,8 +100,9 @@ def build(name, sources, flags=(), libs=('-ltbb', '-lboost_timer'), shim=None, t
     h = hashlib.sha256()
     h.update(repo_hash().encode())
     deps = list(sources) + _files_under(HARNESS, {'.hpp', '.h'})
-    if shim:
-        deps += _files_under(os.path.join(SHIM, shim))
+    shims = [shim] if isinstance(shim, str) else list(shim or [])
+    for sh_ in shims:
+        deps += _files_under(os.path.join(SHIM, sh_))
     for d in extra_dep_dirs:
         deps += _files_under(d)
     for f in deps:
@@ -115,8 +116,8 @@ def build(name, sources, flags=(), libs=('-ltbb', '-lboost_timer'), shim=None, t
     if os.path.exists(exe):
         return exe
     inc = []
-    if shim:
-        inc += ['-I' + os.path.join(SHIM, shim)]
+    for sh_ in shims:
+        inc += ['-I' + os.path.join(SHIM, sh_)]
     inc += ['-I' + HARNESS, '-I' + os.path.join(REPO, 'include'), '-I' + config_include(tbb, mpi)]
     cmd = [cxx or CXX] + BASEFLAGS + list(flags) + inc + list(sources) + ['-o', exe + '.tmp%d' % os.getpid()] + list(libs)
     t0 = time.time()
